@@ -5,4 +5,5 @@ Require Import ExtrOcamlBasic ExtrOcamlZBigInt ExtrOcamlNatBigInt.
 From LZ4V Require Import Spec.BlockSpec Spec.BlockFast Spec.XXH32 Spec.FrameSpec.
 From LZ4V Require Import Gen.Consts Model.FrameD Model.Io Model.IoLz4f.
 Extraction Language OCaml.
-Extraction "lz4v.ml" spec_decode_fast frame_decode lz4f_st_run lz4f_st no_faults st_init LZ4IO_MAGICNUMBER IOL_dBufferSize.
+Extraction "lz4v.ml" spec_decode_fast frame_decode lz4f_st_run lz4f_st no_faults st_init LZ4IO_MAGICNUMBER IOL_dBufferSize
+  decompress dctx_init o_null.
